@@ -81,8 +81,13 @@ class XSession:
                 t.restore_state(d["name"])
             elif c == "delete":
                 t.delete_state(d["name"])
+            elif c == "ctx_create":
+                # the context manager object is made now and entered later: what it puts back on exit is the transform
+                # and stack in effect ON ENTRY (added after seed C13f: the state was copied when the method was called)
+                self.pending_cm = self.g.current_transform()
             elif c == "ctx_enter":
-                cm = self.g.current_transform()
+                cm = getattr(self, "pending_cm", None) or self.g.current_transform()
+                self.pending_cm = None
                 cm.__enter__()
                 self.cms.append(cm)
             elif c == "ctx_named_enter":
@@ -170,7 +175,13 @@ def random_descs(rng, n, exact):
             out.append({"call": "delete", "name": rng.choice(NAMES)})
         elif x < 0.93 and depth < 3:
             depth += 1
-            out.append({"call": "ctx_enter"} if rng.random() < 0.6 else {"call": "ctx_named_enter", "name": rng.choice(NAMES)})
+            if rng.random() < 0.6:
+                if rng.random() < 0.35:
+                    v = [float(rng.randint(-3, 3)) for _ in range(3)] if exact else [rng.uniform(-5, 5) for _ in range(3)]
+                    out += [{"call": "ctx_create"}, {"call": "translate", "v": v}, {"call": "save"}]
+                out.append({"call": "ctx_enter"})
+            else:
+                out.append({"call": "ctx_named_enter", "name": rng.choice(NAMES)})
         elif depth > 0:
             depth -= 1
             out.append({"call": rng.choice(["ctx_exit", "ctx_exit_raised"])})
